@@ -212,6 +212,19 @@ func observable(c *gen.DocCase) string {
 		fmt.Fprintf(&b, "%q:%q ", k, l)
 	}
 
+	// The lists of relationship names whose data is asked for, of the URL and
+	// of the document (their order is the library's to change, not their
+	// content).
+	for i, lists := range []map[string][]string{u.Params.RelData, c.Doc.RelData} {
+		fmt.Fprintf(&b, " %s=", []string{"url-reldata", "doc-reldata"}[i])
+
+		for _, k := range gen.SortedKeys(lists) {
+			l := append([]string{}, lists[k]...)
+			sort.Strings(l)
+			fmt.Fprintf(&b, "%q:%q ", k, l)
+		}
+	}
+
 	// The filter exactly as it reads (operands in their order).
 	fmt.Fprintf(&b, "label=%q filter=%s", u.Params.FilterLabel, showFilter(u.Params.Filter))
 
